@@ -90,14 +90,11 @@ func pipeline(args []string) error {
 	defer cl.Close()
 	node := cl.Nodes[0]
 	const thr = 32
-	px, err := sut.StartRedis(sut.RedisOpts{Compression: compression("enabled", thr)}, cl.Addrs())
+	px, cs, err := startProxy(cl, compression("enabled", thr), 2)
 	if err != nil {
 		return err
 	}
 	defer sut.StopWithin(px.P, 5*time.Second)
-	if !sut.WaitRefresh(px.Name, 3*time.Second) {
-		return fmt.Errorf("slot table not loaded")
-	}
 	setEnabled := func(on bool) error {
 		c := "disabled"
 		if on {
@@ -105,26 +102,22 @@ func pipeline(args []string) error {
 		}
 		return px.P.OnSvcConfigUpdate(sut.RedisConfig(sut.RedisOpts{Port: portOf(px.Addr), Compression: compression(c, thr)}))
 	}
-	var conns [2]*sut.Client
-	for i := range conns {
-		if conns[i], err = sut.Dial(px.Addr); err != nil {
-			return err
-		}
-		defer conns[i].Close()
-	}
+	conns := [2]*sut.Client{cs[0], cs[1]}
+	defer cs[0].Close()
+	defer cs[1].Close()
 	// values the pipelines read back and the value the disabled commands aim at (stored compressed)
 	rvals := map[string][]byte{}
 	for i := 0; i < 4; i++ {
 		k := fmt.Sprintf("pr:%d", i)
 		rvals[k] = bytes.Repeat([]byte{byte('k' + i)}, 200+17*i)
-		if v, err := conns[0].DoB(3*time.Second, []byte("SET"), []byte(k), rvals[k]); err != nil || v.IsErr() {
+		if v, err := conns[0].DoB(replyTO, []byte("SET"), []byte(k), rvals[k]); err != nil || v.IsErr() {
 			return fmt.Errorf("preparing %s: %v %v", k, v, err)
 		}
 	}
 	target := bytes.Repeat([]byte("t"), 300)
 	prepare := func() error {
 		// the target is written while compression is on: the backend holds it compressed
-		if v, err := conns[0].DoB(3*time.Second, []byte("SET"), []byte("pb"), target); err != nil || v.IsErr() {
+		if v, err := conns[0].DoB(replyTO, []byte("SET"), []byte("pb"), target); err != nil || v.IsErr() {
 			return fmt.Errorf("preparing pb: %v %v", v, err)
 		}
 		return nil
@@ -145,7 +138,7 @@ func pipeline(args []string) error {
 	})
 	sc.Install()
 	defer sc.Uninstall()
-	const stepTO = 3 * time.Second
+	const stepTO = replyTO
 	park := func() bool {
 		sc.Gate("W")
 		// the writer sits in its select; one request makes it come round to the hook
@@ -259,7 +252,7 @@ func pipeline(args []string) error {
 			n := len(node.Records())
 			if n != last {
 				last, stable = n, time.Now()
-			} else if time.Since(stable) > 4*time.Millisecond && (n >= len(beh.Wire) || time.Since(stable) > 60*time.Millisecond) {
+			} else if time.Since(stable) > 10*time.Millisecond && (n >= len(beh.Wire) || time.Since(stable) > 60*time.Millisecond) {
 				break
 			}
 			time.Sleep(500 * time.Microsecond)
@@ -279,13 +272,14 @@ func pipeline(args []string) error {
 		w.Write(res)
 		// --- the replies
 		unpark()
-		node.SetGate(false)
+		ungate(node)
 		res.Phase, res.Bad = "replies", nil
 		broken := false
 		for j := range reqs {
 			v, err := conns[connOf[j]].Recv(stepTO)
 			if err != nil {
-				res.Bad = append(res.Bad, bad{Sig: "read-failed", What: fmt.Sprintf("pipeline %v, schedule %s: no reply to request %d (%s): %v", res.Cmds, strings.Join(beh.Sched, ""), j+1, res.Cmds[j], err)})
+				// a reply that does not come is not a verdict about compression
+				res.Err = fmt.Sprintf("pipeline %v, schedule %s: no reply to request %d (%s): %v", res.Cmds, strings.Join(beh.Sched, ""), j+1, res.Cmds[j], err)
 				broken = true
 				break
 			}
